@@ -81,7 +81,9 @@ RULE = ("pairs of positive-rate GriddedForecasts on a common CartesianGrid2D (1.
         "recomputed from scratch after every evaluation; forecasts B that differ from A by a few ulps in a few bins "
         "(log-rate differences and null median of order 1e-16, not zero); horizons that are not whole days (scale=True "
         "divides by the whole days elapsed); the factor of the forecast objects set by scale_to_test_date, also after an "
-        "earlier scale(); array-valued scale factors of every broadcastable shape ((m,), (n,1), (1,m), (n,m), 0-d, (1,)) in "
+        "earlier scale(); round 7: copies (copy / deepcopy / pickle) of both forecasts and the catalog before use, rejected "
+        "calls (scale=True with an event outside the region / below the magnitudes, non-catalog, unequal lengths) on the same "
+        "objects before the judged ones and inside sessions, user subclasses, numpy.errstate raise + decimal context; array-valued scale factors of every broadcastable shape ((m,), (n,1), (1,m), (n,m), 0-d, (1,)) in "
         "one or both forecasts and in session steps (event_count must be one number); in half of the cases the caller "
         "modifies in place every array the public calls returned (data, spatial_counts, magnitude_counts, both "
         "target_event_rates, get_rates, result arrays) and evaluates T / W / binary-T again (same numbers required); rate "
@@ -234,6 +236,7 @@ def _gen_case(rng):
     case["helpers"] = rng.random() < 0.3
     # catalog value classes: unreported depth (NaN), epoch 0, shared origin times, non-native byte order
     case["catflags"] = [f for f in ("nan-depth", "epoch0", "dup-time", "big-endian") if rng.random() < 0.15]
+    case["pre7"] = _gen_prelude(rng)
     if kind == "random" and rng.random() < 0.25:  # (never combined with "+tiny": kind differs)
         ai = g.integers(1, 10, (nc, nm)); bi = g.integers(1, 10, (nc, nm))
         case["a"] = [float(v).hex() for v in ai.ravel()]
@@ -285,7 +288,8 @@ def _build(case):
         return x
     st = datetime.datetime(2020, 1, 1)
     xs = case.get("extra_s") or [0, 0]
-    fa = GriddedForecast(start_time=st, end_time=st + datetime.timedelta(days=case["days_a"], seconds=xs[0]), data=laid(a),
+    FA = _user_classes()["fc"] if (case.get("pre7") or {}).get("user") else GriddedForecast     # (j) a user subclass of the forecast
+    fa = FA(start_time=st, end_time=st + datetime.timedelta(days=case["days_a"], seconds=xs[0]), data=laid(a),
                          region=region, magnitudes=mags, name="A")
     fb = GriddedForecast(start_time=st, end_time=st + datetime.timedelta(days=case["days_b"], seconds=xs[1]), data=laid(b),
                          region=region, magnitudes=mags, name="B")
@@ -489,6 +493,130 @@ def _private(run, mod, name, *probe):
     return _PRIV[key]
 
 
+# ----------------------------------------------------------------------------- round-7 classes: what happens BEFORE the judged calls
+COPY_FORMS = ["copy", "deepcopy", "pickle"]
+REJECTS = ["t-outside", "t-belowmag", "w-outside", "b-belowmag", "t-outside-swapped", "rates-type", "getrates-len", "rates-outside"]
+_USER = {}
+_UNSUPPORTED = set()
+
+
+def _user_classes():
+    """(j) user subclasses that override documented accessors CONSISTENTLY (the accessor stays the source of truth) and define
+    __len__ / __bool__; the repo's own tests use such a catalog"""
+    if not _USER:
+        from csep.core.catalogs import CSEPCatalog
+        from csep.core.forecasts import GriddedForecast
+
+        class UserCatalog(CSEPCatalog):
+            def get_magnitudes(self):
+                return numpy.array(super().get_magnitudes(), dtype=float)
+
+            def get_longitudes(self):
+                return numpy.array(super().get_longitudes(), dtype=float)
+
+            def get_latitudes(self):
+                return numpy.array(super().get_latitudes(), dtype=float)
+
+            def get_number_of_events(self):
+                return int(super().get_number_of_events())
+
+            def __len__(self):
+                return self.get_number_of_events()
+
+            def __bool__(self):
+                return self.get_number_of_events() > 0
+
+        class UserForecast(GriddedForecast):
+            def spatial_counts(self, cartesian=False):
+                return numpy.array(super().spatial_counts(cartesian=cartesian), copy=True)
+
+            def magnitude_counts(self):
+                return numpy.array(super().magnitude_counts(), copy=True)
+
+            def __len__(self):
+                return int(numpy.size(self.data))
+        _USER.update(cat=UserCatalog, fc=UserForecast)
+    return _USER
+
+
+def _copied(run, obj, form, what):
+    """(h) the object replaced by a copy of itself before use; a form the tree under test cannot make is skipped (counted)"""
+    import copy, pickle
+    if not form or (form, what) in _UNSUPPORTED:
+        return obj
+    if form == "pickle" and type(obj).__name__.startswith("User"):
+        form = "deepcopy"          # the harness's user subclasses are local classes: pickle cannot name them
+    try:
+        new = {"copy": copy.copy, "deepcopy": copy.deepcopy, "pickle": lambda o: pickle.loads(pickle.dumps(o))}[form](obj)
+        run.count(f"copy-before-use:{what}:{form}")
+        return new
+    except Exception as e:
+        _UNSUPPORTED.add((form, what))
+        run.assumptions.append(f"{form} of a {what} is not supported by the tree under test ({type(e).__name__}): form left out")
+        run.count(f"copy-before-use:{what}:{form}:unsupported")
+        return obj
+
+
+def _rejected_call(run, kind, fa, fb, cat, region):
+    """(i) a call on the SAME objects that the library rejects; the exception is caught by the caller, who carries on"""
+    from csep.core import poisson_evaluations as pe, binomial_evaluations as be
+    from csep.core.catalogs import CSEPCatalog
+    arr = numpy.array(cat.catalog, copy=True)
+    if kind.endswith("outside") or "outside" in kind:
+        arr['longitude'][0] = 99.0
+    elif "belowmag" in kind:
+        arr['magnitude'][-1] = 1.0
+    try:
+        with numpy.errstate(all="ignore"):
+            bad = CSEPCatalog(data=arr, region=region)
+            if kind == "t-outside" or kind == "t-belowmag":
+                pe.paired_t_test(fa, fb, bad, scale=True)
+            elif kind == "t-outside-swapped":
+                pe.paired_t_test(fb, fa, bad, alpha=0.1, scale=True)
+            elif kind == "w-outside":
+                pe.w_test(fa, fb, bad, scale=True)
+            elif kind == "b-belowmag":
+                be.binary_paired_t_test(fa, fb, bad, scale=True)
+            elif kind == "rates-outside":
+                fb.target_event_rates(bad, scale=True)
+            elif kind == "rates-type":
+                fa.target_event_rates("not a catalog", scale=True)
+            else:
+                fa.get_rates([0.05], [0.05, 0.05], [4.2])
+        run.count(f"rejected-call:{kind}:accepted")
+    except Exception:
+        run.count(f"rejected-call:{kind}:raised")
+
+
+def _gen_prelude(rng):
+    """round-7 classes drawn for one case: copies before use, user subclasses, calls the library rejects, global numeric state"""
+    return dict(copy=[rng.choice(COPY_FORMS) if rng.random() < 0.5 else None for _ in range(3)] if rng.random() < 0.3 else None,
+                user=rng.random() < 0.2,
+                reject=[rng.choice(REJECTS) for _ in range(rng.randint(1, 2))] if rng.random() < 0.4 else None,
+                numeric=rng.random() < 0.3)
+
+
+def _prelude(run, case, fa, fb, cat):
+    pre = case.get("pre7")
+    if not pre:
+        return fa, fb, cat
+    region = fa.region
+    if pre.get("user"):
+        U = _user_classes()
+        try:
+            cat = U["cat"](data=numpy.array(cat.catalog, copy=True), region=region)
+            run.count("user-subclass:catalog" + ("+forecast" if type(fa).__name__ == "UserForecast" else ""))
+        except Exception as e:
+            run.oracle_failure(dict(case, tag="pre7"), f"user subclasses of catalog / forecast cannot be built: {type(e).__name__}: {e}")
+    if pre.get("copy"):
+        fa = _copied(run, fa, pre["copy"][0], "gridded-forecast")
+        fb = _copied(run, fb, pre["copy"][1], "gridded-forecast")
+        cat = _copied(run, cat, pre["copy"][2], "catalog")
+    for kind in pre.get("reject") or []:
+        _rejected_call(run, kind, fa, fb, cat, region)
+    return fa, fb, cat
+
+
 def _w_count_clear(case, a, b, scale, n):
     """number of log-rate differences CLEARLY distinct from the null median, from the harness's own numbers"""
     da = a / case["days_a"] if scale else a
@@ -504,6 +632,11 @@ def _check(run, drv, pending, case, tag):
     import scipy.stats
     from csep.core import poisson_evaluations as pe, binomial_evaluations as be
     fa, fb, cat, a0, b0 = _build(case)
+    try:
+        fa, fb, cat = _prelude(run, case, fa, fb, cat)
+    except Exception as e:
+        run.oracle_failure(dict(case, tag=tag), f"copy / user subclass / rejected call before the tests: {type(e).__name__}: {e}")
+        return
     fsc = [_fval(v, a0.shape) for v in (case.get("fscale") or [1, 1])]
     a, b = a0 * fsc[0], b0 * fsc[1]          # the rates of the forecast objects: stored rates x the factor of .scale()
     arrfac = any(isinstance(v, numpy.ndarray) for v in fsc)
@@ -779,6 +912,27 @@ def _check(run, drv, pending, case, tag):
                                           f"tests give other numbers: paired T {t2_!r} (before {tab!r})")
         except Exception as e:
             run.oracle_failure(short, f"evaluation after in-place changes to returned arrays: {type(e).__name__}: {e}")
+    # ---- (k) GLOBAL NUMERIC STATE: the same evaluations under numpy.errstate(divide/invalid='raise') and a 3-digit decimal context
+    # (only where the statistics are well defined: no 0/0 of a vanishing variance, at least one difference for W)
+    if (case.get("pre7") or {}).get("numeric") and not degenerate and w["count"] >= 1 and out["wAB"] is not None:
+        import decimal
+        try:
+            (ta, tk) = targs(fa, fb); (wa, wk) = wargs(fa, fb)
+            import warnings as _w
+            with _w.catch_warnings(), numpy.errstate(divide="raise", invalid="raise"), decimal.localcontext() as ctx:
+                _w.simplefilter("ignore")
+                ctx.prec = 3
+                tn = _tres(pe.paired_t_test(*ta, **tk))
+                wn = pe.w_test(*wa, **wk)
+                bn = _tres(be.binary_paired_t_test(*ta, **tk)) if (nact >= 2 and not bdeg and out["bAB"] is not None) else None
+            same = all(_same(tn[k], tab[k], 1e-12, 0.0) for k in tn) and _same(float(wn.observed_statistic), zab, 1e-12, 0.0) \
+                and _same(float(wn.quantile), pab, 1e-12, 0.0) and (bn is None or all(_same(bn[k], bab[k], 1e-12, 0.0) for k in bn))
+            if not same:
+                run.oracle_failure(short, f"under numpy.errstate(divide/invalid='raise') and a 3-digit decimal context the tests give "
+                                          f"other numbers: paired T {tn!r} (before {tab!r})")
+            run.count("numeric-state:errstate-raise+decimal-prec-3")
+        except Exception as e:
+            run.oracle_failure(short, f"under numpy.errstate(divide/invalid='raise'): {type(e).__name__}: {e}")
     # ---- ALIASING OF CALLER-OWNED INPUT: rate arrays handed to the constructors and the catalog rows, bit for bit
     a_ref = numpy.array([float.fromhex(v) for v in case["a"]]).reshape(a0.shape)
     b_ref = numpy.array([float.fromhex(v) for v in case["b"]]).reshape(b0.shape)
@@ -963,7 +1117,8 @@ def _gen_session(rng):
     case["layout"] = "C" if case.get("layout") == "int64" else case.get("layout", "C")
     steps = []
     for _ in range(rng.randint(4, 8)):
-        op = rng.choice(["t", "t", "w", "w", "b", "fscale", "fscale", "catcut", "ntest", "rates", "counts", "shared", "testdate"])
+        op = rng.choice(["t", "t", "w", "w", "b", "fscale", "fscale", "catcut", "ntest", "rates", "counts", "shared", "testdate",
+                         "reject", "reject"])
         st = dict(op=op, order=rng.choice(["AB", "BA", "AA"]), scale=rng.random() < 0.5,
                   alpha=rng.choice([0.05, 0.01, 0.1]))
         if op == "fscale":
@@ -971,6 +1126,8 @@ def _gen_session(rng):
                       dict(arr=rng.choice(ARR_KINDS), seed=rng.randrange(2 ** 32)))
         if op == "catcut":
             st["cut"] = rng.choice([4.5, 5.0])
+        if op == "reject":
+            st["kind"] = rng.choice(REJECTS)
         if op == "testdate":
             # scale_to_test_date on one of the objects: day offset from the start (also before / after the period), hour
             st.update(which=rng.choice("ab"), t=[rng.choice([-1, 0, 0, 1, 7, 29, 30, 364, 365, 400, 2000, rng.randint(0, 400)]),
@@ -990,6 +1147,11 @@ def _session(run, case):
         run.oracle_failure(case, f"objects cannot be built: {type(e).__name__}: {e}")
         return
     snap_a, snap_b = a0.copy(), b0.copy()
+    try:
+        fa, fb, cat = _prelude(run, case, fa, fb, cat)
+    except Exception as e:
+        run.oracle_failure(case, f"copy / user subclass / rejected call before the session: {type(e).__name__}: {e}")
+        return
     nm = case["nm"]
     fac = dict(a=1.0, b=1.0)
     if case.get("fscale_from_testdate"):
@@ -1011,6 +1173,10 @@ def _session(run, case):
                 v_ = _fval(st["v"], a0.shape)
                 (fa if st["which"] == "a" else fb).scale(v_)
                 fac[st["which"]] = v_ if isinstance(v_, numpy.ndarray) else float(v_)
+                continue
+            if op == "reject":
+                # (i) a call the library rejects on the session's own objects; the caller catches it and carries on
+                _rejected_call(run, st["kind"], fa, fb, cat, fa.region)
                 continue
             if op == "testdate":
                 f = fa if st["which"] == "a" else fb
